@@ -264,7 +264,10 @@ Broken == <<
   "schema: '1.2'\ncontents:\n  - a.fga\n\t- b.fga\n",
   "schema: '1.2'\ncontents: [a.fga\n",
   "schema: '1.2\ncontents:\n  - a.fga\n",
-  "schema: '1.2'\ncontents:\n  - a.fga\n---\nschema: \"1.2\ncontents: []\n" >>
+  "schema: '1.2'\ncontents:\n  - a.fga\n---\nschema: \"1.2\ncontents: []\n",
+  \* ... in the third document, in the fifth
+  "schema: '1.2'\ncontents:\n  - core.fga\n---\nnotes: fine\n---\nnotes: [unterminated\n",
+  "schema: '1.2'\ncontents:\n  - core.fga\n---\n- a\n---\n- b\n---\nc: d\n---\n{ e: [f }\n" >>
 BrokenInit == st \in 1..Len(Broken)
 BrokenNext == st > 0 /\ st' = 0 - st /\ PrintT(ToJson([rec |-> "broken", text |-> Broken[st], ok |-> FALSE]))
 BrokenOK == TRUE
